@@ -33,7 +33,7 @@ CATS = ["C05"]
 
 def shards(tier):
     return ([{"kind": "hist", "i": i} for i in range(10)] + [{"kind": "arith"}, {"kind": "pow_slices"}]
-            + [{"kind": "assembly", "i": i} for i in range(4)])
+            + [{"kind": "assembly", "i": i} for i in range(4)] + [{"kind": "miner"}])
 
 
 def _arith(res, tier, seed):
@@ -255,6 +255,55 @@ def _evidence(res, run):
                      dict(run.case, evidence_of=nid.hex()))
 
 
+def _miner(res, tier, seed):
+    """the node's own block assembly AS THE MINER RUNS IT (MinerWatcher: one candidate request per nonce, the clock ticking
+    between requests, found-block handler), on heads whose next height is a retarget boundary half of the time: the block it
+    finds must satisfy every header rule of the reference and pass the node's own validation"""
+    import random
+    from vf.props import c12
+    n = 60 if tier == "quick" else 600
+
+    @hypothesis.seed(env.subseed(seed, ID, "miner"))
+    @settings(max_examples=n, deadline=None, database=None, suppress_health_check=list(hypothesis.HealthCheck), phases=[hypothesis.Phase.generate])
+    @given(st.randoms(use_true_random=True), st.sampled_from(chainexec.CFGS[:3]), st.integers(0, 6), st.sampled_from([1, 1, 2, 3, 40]),
+           st.sampled_from([-30, -1, 0, 1, 1, 31, 120, 120]), st.sampled_from([0, 1, 2, 30]))
+    def prop(rnd, cfg, extra, tick_every, asm_off, found_delay):
+        want_boundary = rnd.random() < 0.7
+        nb = 3 + extra
+        case = None
+        for _try in range(6):
+            case = chainexec.gen_case(random.Random(rnd.randrange(1 << 30)), cfg, nb, 0.0, ["C01"], p_tx=0.5, p_fork=0.2)
+            case.pop("horizon", None)
+            r = chainexec.Run(case, ("C05",))
+            r.execute()
+            head = r.world.uni.nodes[r.cs.current_chain_hash]
+            if ((head.height + 1) % cfg[0] == 0) == want_boundary:
+                break
+            nb += 1
+        case.update(asm_off=asm_off, found_delay=found_delay, n_pool=rnd.randrange(0, 3), fee_sel=rnd.randrange(5), nonce0=rnd.randrange(1 << 32),
+                    second_find=False, tick_every=tick_every, dead_peer=False, next_request=False, net_flush_race=False)
+        try:
+            fails, info = c12.execute(case)
+        except env.HarnessError as e:
+            res.error(str(e))
+            return
+        res.evaluations += 1
+        res.count("miner_finds")
+        res.count("miner_finds_at_retarget_boundary", 1 if info.get("boundary") else 0)
+        if info.get("boundary"):
+            res.nontrivial(env.digest(case))
+        for f in fails:
+            header = f["sig"].startswith("found-block-invalid:C05") or f["sig"] == "found-block-rejected-by-own-validation" or (
+                f["sig"].startswith("found-block-handler-raised") and ("Header" in f["sig"] or "validate_block" in f["sig"] or "POW" in f["msg"]))
+            if header:
+                res.fail("assembly", "miner:" + f["sig"], "block assembled by the miner: " + f["msg"], {"miner_case": case})
+            else:
+                res.count("miner_failures_outside_C05")
+
+    prop()
+    res.sample({"miner_path": "MinerWatcher request/answer loop with a ticking clock, 60% of the heads just below a retarget boundary"})
+
+
 def run(shard, tier, seed):
     res = Result()
     if shard["kind"] == "arith":
@@ -265,6 +314,9 @@ def run(shard, tier, seed):
         return res
     if shard["kind"] == "assembly":
         _assembly(res, tier, seed, shard["i"])
+        return res
+    if shard["kind"] == "miner":
+        _miner(res, tier, seed)
         return res
     n = 25 if tier == "quick" else 400
     nb = (8, 18) if tier == "quick" else (8, 30)
@@ -289,6 +341,9 @@ def run(shard, tier, seed):
 
 
 def replay(case):
+    if "miner_case" in case:
+        from vf.props import c12
+        return [dict(f, sig="miner:" + f["sig"]) for f in c12.execute(case["miner_case"])[0]]
     if "prev" in case:
         env.import_repo()
         import skepticoin.consensus as C
